@@ -70,7 +70,18 @@ def check_transient(case, r: R):
     funcs = {}
     for j, sid in enumerate(ref.inputs):
         nominal = next(c['args'].get('V', c['args'].get('I')) for c in vsrc + isrc if c['id'] == sid)
-        ks, vs = waveform(N, [(f, a * nominal) for f, a in case['waves'][j % len(case['waves'])]])
+        wv = case['waves'][j % len(case['waves'])]
+        if wv and wv[0][0] == 'step':
+            # the library's own step helper, switched exactly at a grid instant: sampled on the grid and interpolated
+            # linearly it is a one-sample ramp; the oracle samples its own definition (X0 up to and including t0)
+            from CircuitCalculator.SignalProcessing.one_sided_functions import step
+            k0 = min(N - 2, max(0, int(wv[0][1] * (N - 1))))
+            t0 = t[k0]
+            u[:, j] = np.where(np.arange(N) > k0, wv[0][2] * nominal, 0.0)
+            funcs[sid] = (lambda t0_, a_: (lambda tt: step(np.asarray(tt, dtype=float), t0=t0_, X0=0.0, X1=a_)))(t0, wv[0][2] * nominal)
+            r.cls('step-input')
+            continue
+        ks, vs = waveform(N, [(f, a * nominal) for f, a in wv])
         u[:, j] = sample(ks, vs, N)
         funcs[sid] = (lambda kk, vv: (lambda tt: np.interp(np.asarray(tt, dtype=float) / dt, kk, vv)))(ks, vs)
     x = dy.foh_response(A, B, u, dt)
@@ -247,7 +258,8 @@ def check_settling(case, r: R):
 pt = st.tuples(st.floats(0.02, 0.98), st.sampled_from([1.0, -1.0, 0.5, 0.0, 2.0, -0.3]))
 wave = st.one_of(
     st.lists(pt, min_size=1, max_size=5).map(lambda l: sorted(l)),
-    st.sampled_from([[(0.005, 1.0)], [(0.01, 1.0), (0.5, 1.0), (0.51, 0.0)], [(0.3, 1.0), (0.6, -1.0), (0.9, 0.0)], [(0.001, 1.0), (0.4, 1.0), (0.401, -1.0)]]))
+    st.sampled_from([[(0.005, 1.0)], [(0.01, 1.0), (0.5, 1.0), (0.51, 0.0)], [(0.3, 1.0), (0.6, -1.0), (0.9, 0.0)], [(0.001, 1.0), (0.4, 1.0), (0.401, -1.0)]]),
+    st.tuples(st.just('step'), st.sampled_from([0.0, 0.1, 0.25, 0.5]), st.sampled_from([1.0, -1.0, 2.0])).map(lambda x: [x]))
 
 
 @st.composite
